@@ -262,6 +262,21 @@ ADDED9 = {
 for _pid, _t in ADDED9.items():
     CLAIMS[_pid]["text"] = CLAIMS[_pid]["text"].rstrip() + " Round 9: " + _t
 
+# clauses added in the tenth (half) seeding round
+ADDED10 = {
+    "C01": "R-01.15 every numeric `if ...: raise LabelTooLong` of dns/name.py evaluates to (False, True) at lengths 63, 64. R-01.16 runs the rule function of C05 R-05.6 (origin, relativize, relativize_to reach every name-reading call).",
+    "C02": "R-02.15 runs check_parser_reads (C04 R-04.5). R-02.16 a local named like a parameter of the called codec method is passed positionally only at that parameter's position.",
+    "C05": "R-05.16 runs the rule function of C02 R-02.3 (get_rdata_class memoises under the key it looked up).",
+    "C07": "R-07.12 every copying form of ImmutableRdataset returns ImmutableRdataset(...). Assumption stated: initialisers are not re-run on live objects.",
+    "C13": "R-13.6 also adopts C14 R-14.5.",
+    "C15": "R-15.12 an `if <parameter> is None:` block that assigns the parameter holds no bare call statement and no loop (dns.dnssec).",
+    "C18": "R-18.12 a local named like a parameter of the called transport function is passed positionally only at that parameter's position. R-18.13 after `_compute_times(timeout)` a transport function is handed `_timeout(expiration)`, not the original timeout.",
+    "C19": "R-19.14 _Node defines neither __len__ nor __bool__ (copy-on-write results are tested by truth value). R-19.13 also: Cursor.__exit__ never returns a true value.",
+    "C20": "R-20.8 adopts C10 R-10.5.",
+}
+for _pid, _t in ADDED10.items():
+    CLAIMS[_pid]["text"] = CLAIMS[_pid]["text"].rstrip() + " Round 10: " + _t
+
 NA_REASON = {}
 def na(pid, reason):
     NA_REASON[pid] = reason
